@@ -189,7 +189,7 @@ use super::*;
 #[test]
 fn verif_replay_c18_late_channel() {
     let mut bad: Vec<String> = Vec::new();
-    for episode in [0u8, 1, 2].iter() {
+    for episode in [0u8, 1, 2, 3].iter() {
         let mut io = IoLoop::new(crate::ConnectionTuning::default()).unwrap();
         io.inner.chan_slots.set_channel_max(100);
         let (ch0_slot, mut h0) = Channel0Slot::new(8);
@@ -197,7 +197,13 @@ fn verif_replay_c18_late_channel() {
         let (slot, _h1) = ChannelSlot::new(8, 1);
         io.poll.register(&slot.rx, mio::Token(1), mio::Ready::readable(), mio::PollOpt::edge()).unwrap();
         io.inner.chan_slots.insert(Some(1), |_| Ok((slot, ()))).unwrap();
-        if *episode >= 1 {
+        if *episode == 3 {
+            // the stall begins with no channel open at all and is still on when the new channel is opened: the newcomer is parked with
+            // the (empty) rest - its publisher blocks instead of feeding the backlog - and is resumed when the stall ends
+            let gone = io.inner.chan_slots.remove(1);
+            drop(gone);
+            io.inner.deregister_nonzero_channels(&io.poll).unwrap();
+        } else if *episode >= 1 {
             // a back-pressure episode that is over: channels were de-registered and are registered again
             io.inner.deregister_nonzero_channels(&io.poll).unwrap();
             if *episode == 2 {
@@ -216,12 +222,24 @@ fn verif_replay_c18_late_channel() {
         let mut events = mio::Events::with_capacity(16);
         let (mut served, mut polled) = (false, false);
         let t0 = std::time::Instant::now();
-        while t0.elapsed() < std::time::Duration::from_millis(1500) && !polled {
+        while t0.elapsed() < std::time::Duration::from_millis(if *episode == 3 { 500 } else { 1500 }) && !polled {
             io.poll.poll(&mut events, Some(std::time::Duration::from_millis(100))).unwrap();
             for ev in &events {
                 if ev.token() == ALLOC_CHANNEL { io.inner.allocate_channel(&ch0_slot, &io.poll).unwrap(); served = true; }
                 else if ev.token() == mio::Token(2) { polled = true; }
             }
+        }
+        if *episode == 3 {
+            let during = polled;
+            io.inner.reregister_nonzero_channels(&io.poll).unwrap();
+            let t1 = std::time::Instant::now();
+            while t1.elapsed() < std::time::Duration::from_millis(1000) && !polled {
+                io.poll.poll(&mut events, Some(std::time::Duration::from_millis(100))).unwrap();
+                for ev in &events { if ev.token() == mio::Token(2) { polled = true; } }
+            }
+            if !served || during || !polled { bad.push(format!("stall_with_no_channel_open:allocation_served={}:new_channel_polled_during_stall={}:polled_after_resume={}", served, during, polled)); }
+            let _ = t.join();
+            continue;
         }
         if !served || !polled { bad.push(format!("after_episode={}:allocation_served={}:new_channel_polled={}", episode, served, polled)); }
         let _ = t.join();
